@@ -461,6 +461,29 @@ func ruleFlagWrap(r *Run) {
 			return true
 		})
 	}
+	// (g) New: the configured names become the set verbatim (no trimming, folding or aliasing)
+	if nf := r.P.FuncByName("featureflag.New"); nf != nil {
+		paths := r.Paths(nf)
+		r.Analysed(nf, len(paths))
+		writes := 0
+		for pi := range paths {
+			path := &paths[pi]
+			r.loopsComplete("C4g", nf, path)
+			for i, ev := range path.Events {
+				if ev.Kind == EvGuard && ev.GKind != GRange {
+					r.CheckT("C4g", nf.Name+":unconditional", false, ev.Pos, path, "whether a configured name enters the flag set depends on %s", r.Classify(path, i))
+				}
+			}
+			for _, op := range r.mapOps(nf, path) {
+				writes++
+				r.CheckT("C4g", nf.Name+":verbatim", op.Kind == "write" && op.Key == "conv:featureflag.Flag(rangeval(param:flags))", path.Events[op.Idx].Pos, path,
+					"each configured name is entered into the flag set verbatim (key %s): a name that is not exactly a DISABLE_* constant must not act as one", op.Key)
+			}
+		}
+		r.Check("C4g", nf.Name+":fills-set", writes >= 1, nf.Body.Pos(), "New enters the configured names into the set")
+	} else {
+		r.Undecide("C4g", "featureflag.New not found")
+	}
 	// (e) IfNotSet / IfSet: membership test and the call
 	for _, which := range []struct {
 		f       *types.Func
